@@ -1,4 +1,5 @@
 """C05 monitors: snapshot + postcondition on every translate_rotate; the expected image is computed independently."""
+import os
 import re
 
 from vf import monitors as M
@@ -77,7 +78,7 @@ def post(self, translation, angle, result, OLD):
         t = (float(translation[0]), float(translation[1]))
         after = spatial.extract(result if result is not None else self)
         exp = spatial.moved(OLD.items, t, float(angle))
-        bad = spatial.compare(exp, after, scale_extra=abs(t[0]) + abs(t[1]))
+        bad = spatial.compare(exp, after, scale_extra=abs(t[0]) + abs(t[1]), tol=float(os.environ.get("VERIF_RIGID_TOL", "1e-11")))
         seen = set()
         for path, kind, e, g in bad:
             key = "C05/%s.translate_rotate/%s-not-moved-rigidly/%s/%s" % (cls, kind, generalise(path), angle_class(angle))
